@@ -18,7 +18,7 @@ MANIFEST = dict(
     technique="Lean 4 proof over executable model + differential correspondence (C harness vs compiled Lean driver)")
 MODULE = "IwModel.Props.C05"
 THEOREMS = ["IwModel.C05.recover_cut", "IwModel.C05.applied_record_complete", "IwModel.C05.crc_detects_partial", "IwModel.C05.crc_detects_payload_partial",
-            "IwModel.C05.recover_cut_reset", "IwModel.C05.prescan_cut_savepoint", "IwModel.C05.segClosedB_sound",
+            "IwModel.C05.recover_cut_reset", "IwModel.C05.prescan_cut_savepoint", "IwModel.C05.segClosedB_sound", "IwModel.C05.segDisjointB_sound",
             "IwModel.C05.wal_layout_ok"]
 
 SEP, SET, COPY, WRITE, RESIZE, SAVEPOINT, RESET = 127, 1, 2, 3, 4, 5, 6
@@ -534,7 +534,7 @@ def cases_for(ctx, r, lg, wd, quota_cuts, quota_flips, mfrac):
     # hypotheses of theorem recover_cut, evaluated by the model on this real log (python's own parse cross-checks the walk)
     nres = sum(1 for (_, _, op) in recs if op == RESET)
     whole = bool(recs) and recs[-1][0] + recs[-1][1] == len(wal)
-    lg.wf_expect = "wf sep=1 closed=1 full=%d nrec=%d nsp=%d nreset=%d" % (1 if whole or not wal else 0, len(recs), sum(1 for (_, _, op) in recs if op == SAVEPOINT), nres)
+    lg.wf_expect = "wf sep=1 closed=1 disj=1 rsep=1 full=%d nrec=%d nsp=%d nreset=%d" % (1 if whole or not wal else 0, len(recs), sum(1 for (_, _, op) in recs if op == SAVEPOINT), nres)
     if wal:
         items.append(("wf", len(wal), [], "wf"))
     for c in pick_cuts(r, lg, wal, recs, quota_cuts):
